@@ -17,7 +17,7 @@ from lx.lifted import LiftedScript, dump_runner, set_eq
 from lx.tree import PLACEHOLDER
 
 PID = "C18"
-BOUNDS = ("corpus of checks/corpus.py and the 12 chain scripts of C04; up to 5 (quick) / 7 (thorough) free table/alias/derived-alias/CTE "
+BOUNDS = ("corpus of checks/corpus.py and the 12 chain scripts of C04; up to 5 (quick) / 6 (thorough) free table/alias/derived-alias/CTE "
           "names per instance (2 characters); both export levels; verbose summary not included")
 STUBS = ["sqllineage.runner.split / SqlFluffLineageAnalyzer._list_specific_statement_segment (parser boundary)"]
 ASSUMPTIONS = ["SQL validity assumptions of C08", "the graph is read through runner._sql_holder (table_lineage_graph / column_lineage_graph)",
@@ -93,9 +93,13 @@ def check_summary(text, src, tgt, mid):
 def analyse(lr):
     lr.source_tables          # results are evaluated lazily
     h = lr._sql_holder
-    why = check_export(lr.to_cytoscape(), h.table_lineage_graph, False)
+    # the reference is the lineage graph itself, restricted here (not through the holder's own table / column views)
+    g = h.graph
+    tg = g.subgraph([n for n in g.nodes if type(n).__name__ in ("Table", "Path", "SqlFluffTable", "SqlParseTable")])
+    cg = g.subgraph([n for n in g.nodes if type(n).__name__ in ("Column", "SqlFluffColumn", "SqlParseColumn")])
+    why = check_export(lr.to_cytoscape(), tg, False)
     if why is None:
-        why = check_export(lr.to_cytoscape("column"), h.column_lineage_graph, True)
+        why = check_export(lr.to_cytoscape("column"), cg, True)
     if why is None:
         why = check_summary(str(lr), [str(t) for t in lr.source_tables], [str(t) for t in lr.target_tables],
                             [str(t) for t in lr.intermediate_tables])
@@ -259,7 +263,7 @@ def obligations(tier, seed):
 
     rnd = random.Random("c18/%s" % seed)
     tpl = corpus.build(tier, seed)
-    obs = [ExportOb(k, st, 5 if tier == "quick" else 7, seed) for k, st in tpl if st.kind not in ("show", "use")]
+    obs = [ExportOb(k, st, 5 if tier == "quick" else 6, seed) for k, st in tpl if st.kind not in ("show", "use")]
     if tier == "quick":
         keep = [o for o in obs if ("/plain" in o.key and "/insert/" in o.key) or "merge" in o.key or "update" in o.key or "nodata" in o.key]
         rest = [o for o in obs if o not in keep and "/plain" not in o.key]
